@@ -168,7 +168,7 @@ def mc(ctx, mode):
 
 def c08_scens(ctx):
     scens = []
-    hist = 6 if ctx.quick else 40
+    hist = 6 if ctx.quick else 30
     steps = 120 if ctx.quick else 400
     for fh in (False, True):
         for hostino in (False, True):
@@ -183,7 +183,7 @@ def run_c08(ctx):
         return replay_file(ctx, "C08")
     beh, mcinfo = mc(ctx, "refs")
     scens = []
-    for b in pick(beh, 200 if ctx.quick else 3000, ctx.seed):
+    for b in pick(beh, 200 if ctx.quick else 2000, ctx.seed):
         scens.append({"cfg": cfg(fh=b["fh"], hostino=b["hostino"], no_opendir=b["no_opendir"]), "tree": [["a", "p" if b["special"] else "f"]],
                       "ops": b["ops"] + [{"op": "quiesce"}]})
     n_exp = len(scens)
@@ -274,7 +274,7 @@ def inj_scripts(c, nmax):
 def c15_scens(ctx):
     scens = []
     cfgs = [cfg(fh=fh, no_open=no, no_opendir=nod, hostino=(fh and no)) for fh in (False, True) for no in (False, True) for nod in (False, True)]
-    hist = 3 if ctx.quick else 25
+    hist = 3 if ctx.quick else 20
     steps = 100 if ctx.quick else 300
     n_inj = 0
     for c in cfgs:
@@ -292,7 +292,7 @@ def run_c15(ctx):
         return replay_file(ctx, "C15")
     beh, mcinfo = mc(ctx, "res")
     scens = []
-    for b in pick(beh, 150 if ctx.quick else 3000, ctx.seed):
+    for b in pick(beh, 150 if ctx.quick else 2000, ctx.seed):
         scens.append({"cfg": cfg(fh=b["fh"], no_open=b["no_open"], no_opendir=b["no_opendir"]), "tree": [["a", "p" if b["special"] else "f"]],
                       "ops": b["ops"] + [{"op": "quiesce"}]})
     n_exp = len(scens)
